@@ -1478,3 +1478,32 @@ class Ownership:
         if lsan == "1":
             return ("lsan-leak", parts[-1])
         return None
+
+
+class OwnDelta(Comp):
+    """the dictionary accounting of the ownership catalogue scripts (impl/t_own.c) vs the prediction of the ownership model Own.v:
+    every script is projected onto the model's store / dup / temporary operations (ocaml/run_ht.ml), the model predicts the
+    dictionary delta and the number of released-but-not-held references after everything the caller holds is freed (0 and 0,
+    theorem C17_own_script_delta_zero); the driver reports what the library left (dictionary strings and references of both
+    contexts, not-freed warnings, not-found errors)"""
+    name = "own-delta"
+    driver = "t_own"
+    slice = "ht"
+    sanitize = False
+
+    def gen(self, rng, tier, scale=1.0):
+        o = Ownership()
+        return [l for _, l in o.known()] + o.fixed()
+
+    def norm(self, line, out):
+        m = Ownership.END.search(out)
+        if not m:
+            return out
+        du0, dr0, du1, dr1, w, k, kidx, kcmd, kerr, lsan, nfound = m.groups()
+        return "d%d:e%d" % (sum(abs(int(x)) for x in (du0, dr0, du1, dr1)), int(w) + int(nfound or 0))
+
+    def witness(self, line, model_out, impl_out):
+        j = Ownership().judge(line, impl_out)
+        if j:
+            return j
+        return ("own-delta", "the library left %s in the dictionary accounting, the ownership model predicts %s" % (self.norm(line, impl_out), model_out))
